@@ -90,7 +90,7 @@ package termrenderers
 //@   modifies dyn(s.term).*
 
 // ---- bar graph ----
-//@ pred wf_bar(s) := s.maxKeyLength >= 0 && s.maxKeyLength <= 4611686018427387904 && len(s.rows) <= 1000001 && s.prefixLines >= 0 && s.prefixLines <= 1 && s.maxRows >= 0 && s.maxRows <= 2000000000000
+//@ pred wf_bar(s) := s.maxKeyLength >= 0 && s.maxKeyLength <= 140737488355328 && len(s.rows) <= 1000001 && s.prefixLines >= 0 && s.prefixLines <= 1 && s.maxRows >= 0 && s.maxRows <= 2000000000000
 //@      && s.BarSize >= 0 && s.BarSize <= 1000000 && len(s.subKeys) <= 1000000
 //@ func (*BarGraph).SetKeys
 //@   requires wf_bar(s) && len(keyItems) <= 1000000
